@@ -766,10 +766,317 @@ theorem _parse_atom_block_eq (env : DepEnv) (lines : List (List Str)) (atoms : L
     | none => simp [atomResult, atomStep, truthy]
     | some d => simp [atomResult, atomStep, truthy]
 
-theorem X (env : DepEnv) (lines : List (List Str)) :
-    Tucan.molfile_v3000_reader._parse_atom_block env lines = .error .key := by
+
+theorem atomEntries_ok (env : DepEnv) (atoms : List AtomLine) (es : List (Int × Option Attrs))
+    (h : List.Forall₂ (fun a e => parseInt a.idx = .ok (e.1 + 1) ∧ atomMeaning env a = .ok e.2) atoms es) :
+    atomEntries env atoms = .ok es := by
+  induction h with
+  | nil => rfl
+  | cons hae _ ih =>
+    simp only [atomEntries, hae.1, hae.2, ih, ok_bind, pure_eq_ok]
+    simp
+
+theorem Dict.updatePairs_nodup {κ ν} [DecidableEq κ] (l : List (κ × ν)) : ∀ (d : Dict κ ν),
+    (l.map Prod.fst).Nodup → (∀ k ∈ l.map Prod.fst, k ∉ d.items.map Prod.fst) →
+    d.updatePairs l = ⟨d.items ++ l⟩ := by
+  induction l with
+  | nil => intro d _ _; simp [Dict.updatePairs]
+  | cons p l ih =>
+    intro d hnd hdis
+    have hp : d.contains p.1 = false := by
+      have := hdis p.1 (by simp)
+      simp only [Dict.contains, Dict.get?]
+      rw [List.lookup_eq_none_iff.mpr]
+      · rfl
+      · intro q hq
+        simp only [List.mem_map, not_exists, not_and] at this
+        have h1 := this q hq
+        have h2 : ¬ p.1 = q.1 := fun e => h1 e.symm
+        simpa using h2
+    rw [List.map_cons, List.nodup_cons] at hnd
+    have hset : d.set p.1 p.2 = ⟨d.items ++ [p]⟩ := by simp [Dict.set, hp]
+    simp only [Dict.updatePairs, List.foldl_cons, hset]
+    have := ih ⟨d.items ++ [p]⟩ hnd.2 (by
+      intro k hk
+      simp only [List.map_append, List.map_cons, List.map_nil, List.mem_append, List.mem_singleton, not_or]
+      refine ⟨hdis k (by simp [hk]), ?_⟩
+      rintro rfl; exact hnd.1 hk)
+    simp only [Dict.updatePairs] at this
+    rw [this]; simp
+
+/-- with unique keys a dict built from pairs is exactly the list of pairs, in order -/
+theorem Dict.ofPairs_nodup {κ ν} [DecidableEq κ] (l : List (κ × ν)) (h : (l.map Prod.fst).Nodup) :
+    Dict.ofPairs l = ⟨l⟩ := by
+  have := Dict.updatePairs_nodup l Dict.empty h (by simp [Dict.empty])
+  simpa [Dict.updatePairs, Dict.ofPairs, Dict.empty] using this
+
+/-- **C07, atom block, accepted case**: if line `k` has index `eₖ.1 + 1` and meaning `eₖ.2`, the reader
+returns the non-star atoms as `index-1 ↦ attributes` and the star atoms' indices, both in file order.
+With unique indices the dict is literally the list of non-star lines in file order. -/
+theorem _parse_atom_block_ok (env : DepEnv) (lines : List (List Str)) (atoms : List AtomLine)
+    (hb : AtomBlockAt lines atoms) (hshape : ∀ a ∈ atoms, a.Shape) (es : List (Int × Option Attrs))
+    (h : List.Forall₂ (fun a e => parseInt a.idx = .ok (e.1 + 1) ∧ atomMeaning env a = .ok e.2) atoms es) :
+    Tucan.molfile_v3000_reader._parse_atom_block env lines = .ok (Dict.ofPairs (nonStar es), stars es) := by
+  rw [_parse_atom_block_eq env lines atoms hb hshape, atomBlockMeaning, atomEntries_ok env atoms es h]
+  rfl
+
+theorem _parse_atom_block_ok_unique (env : DepEnv) (lines : List (List Str)) (atoms : List AtomLine)
+    (hb : AtomBlockAt lines atoms) (hshape : ∀ a ∈ atoms, a.Shape) (es : List (Int × Option Attrs))
+    (h : List.Forall₂ (fun a e => parseInt a.idx = .ok (e.1 + 1) ∧ atomMeaning env a = .ok e.2) atoms es)
+    (huniq : ((nonStar es).map Prod.fst).Nodup) :
+    Tucan.molfile_v3000_reader._parse_atom_block env lines = .ok (⟨nonStar es⟩, stars es) := by
+  rw [_parse_atom_block_ok env lines atoms hb hshape es h, Dict.ofPairs_nodup _ huniq]
+
+/-- BEGIN ATOM is not on line 7 → rejected -/
+theorem _parse_atom_block_reject_begin (env : DepEnv) (lines : List (List Str)) (c lb : List Str) (cnt : Str) (n : Int)
+    (h5 : lines[5]? = some c) (h3 : c[3]? = some cnt) (hcnt : parseInt cnt = .ok n)
+    (h6 : lines[6]? = some lb) (hne : join py!" " (lb.drop 2) ≠ py!"BEGIN ATOM") :
+    Tucan.molfile_v3000_reader._parse_atom_block env lines = .error (.custom "MolfileParserException") := by
   unfold Tucan.molfile_v3000_reader._parse_atom_block
-  simp only [pyAdd_int, pyIter_list]
+  have g5 : getItem lines (5 : Int) = .ok c := getItem_nat lines 5 c h5
+  have g3 : getItem c (3 : Int) = .ok cnt := getItem_nat c 3 cnt h3
+  have g6 : getItem lines ((7 : Int) - 1) = .ok lb := getItem_nat lines 6 lb h6
+  have hjb : pyNe (join py!" " (slice lb (some (2 : Int)) none)) py!"BEGIN ATOM" = true := by
+    rw [slice_from_2]; simpa [pyNe, PyCmp.eq] using hne
+  simp only [pyAdd_int, pyIter_list, g5, g3, hcnt, g6, ok_bind, hjb, if_true, throw_eq_error, error_bind]
+
+/-- END ATOM is not where the atom count says → rejected -/
+theorem _parse_atom_block_reject_end (env : DepEnv) (lines : List (List Str)) (c lb le : List Str) (cnt : Str) (n : Nat)
+    (h5 : lines[5]? = some c) (h3 : c[3]? = some cnt) (hcnt : parseInt cnt = .ok (n : Int))
+    (h6 : lines[6]? = some lb) (hlb : lb.drop 2 = [py!"BEGIN", py!"ATOM"])
+    (h7 : lines[7 + n]? = some le) (hne : join py!" " (le.drop 2) ≠ py!"END ATOM") :
+    Tucan.molfile_v3000_reader._parse_atom_block env lines = .error (.custom "MolfileParserException") := by
+  unfold Tucan.molfile_v3000_reader._parse_atom_block
+  have g5 : getItem lines (5 : Int) = .ok c := getItem_nat lines 5 c h5
+  have g3 : getItem c (3 : Int) = .ok cnt := getItem_nat c 3 cnt h3
+  have g6 : getItem lines ((7 : Int) - 1) = .ok lb := getItem_nat lines 6 lb h6
+  have g7 : getItem lines ((7 : Int) + (n : Int)) = .ok le := by
+    have := getItem_nat lines (7 + n) le h7
+    push_cast at this; exact this
+  have hjb : pyNe (join py!" " (slice lb (some (2 : Int)) none)) py!"BEGIN ATOM" = false := by
+    rw [slice_from_2, hlb]; rfl
+  have hje : pyNe (join py!" " (slice le (some (2 : Int)) none)) py!"END ATOM" = true := by
+    rw [slice_from_2]; simpa [pyNe, PyCmp.eq] using hne
+  simp only [pyAdd_int, pyIter_list, g5, g3, hcnt, g6, g7, ok_bind, hjb, hje, if_true, Bool.false_eq_true, if_false,
+    throw_eq_error, error_bind]
+
+
+/-! ## 4. bonds -/
+
+def parserError {α} : M α := .error (.custom "MolfileParserException")
+
+/-- the bond type is the integer in the fourth token -/
+theorem _parse_bond_attributes_ok (env : DepEnv) (line : List Str) (t : Str) (n : Int)
+    (h3 : (line)[3]? = some t) (hn : parseInt t = .ok n) :
+    Tucan.molfile_v3000_reader._parse_bond_attributes env line = .ok ⟨[("bond_type", Val.int n)]⟩ := by
+  unfold Tucan.molfile_v3000_reader._parse_bond_attributes
+  have g3 : getItem line (3 : Int) = .ok t := getItem_nat line 3 t h3
+  simp only [g3, hn, ok_bind, pure_eq_ok]
+  rfl
+
+theorem _parse_bond_attributes_eq (env : DepEnv) (line : List Str) (t : Str) (h3 : (line)[3]? = some t) :
+    Tucan.molfile_v3000_reader._parse_bond_attributes env line =
+      (do let n ← parseInt t; pure ⟨[("bond_type", Val.int n)]⟩) := by
+  unfold Tucan.molfile_v3000_reader._parse_bond_attributes
+  have g3 : getItem line (3 : Int) = .ok t := getItem_nat line 3 t h3
+  simp only [g3, ok_bind]
+  rcases parseInt t with e | n
+  · rfl
+  · rfl
+
+/-- an endpoint must be the (0-based) index of a non-star atom -/
+theorem _validate_atom_index_eq (env : DepEnv) (index : Int) (atom_attrs : Dict Int Attrs) :
+    Tucan.molfile_v3000_reader._validate_atom_index env index atom_attrs =
+      if index ∈ atom_attrs.keys then .ok () else parserError := by
+  unfold Tucan.molfile_v3000_reader._validate_atom_index
+  have : atom_attrs.contains index = decide (index ∈ atom_attrs.keys) := by
+    simp only [Dict.contains, Dict.get?, Dict.keys]
+    by_cases h : index ∈ atom_attrs.items.map Prod.fst
+    · simp only [h, decide_true]
+      cases hl : atom_attrs.items.lookup index with
+      | some v => rfl
+      | none =>
+        rw [List.lookup_eq_none_iff] at hl
+        simp only [List.mem_map] at h
+        obtain ⟨q, hq, rfl⟩ := h
+        simpa using hl q hq
+    · simp only [h, decide_false]
+      cases hl : atom_attrs.items.lookup index with
+      | some v => exact absurd (lookup_mem_keys index v _ hl) h
+      | none => rfl
+  simp only [pyContains_dict, this]
+  by_cases h : index ∈ atom_attrs.keys <;> simp [h, parserError]
+
+/-- `_validate_bond_indices` accepts exactly when both endpoints of every bond are atom indices -/
+theorem _validate_bond_indices_eq (env : DepEnv) (bond_attrs : Dict (Int × Int) Attrs) (atom_attrs : Dict Int Attrs) :
+    Tucan.molfile_v3000_reader._validate_bond_indices env bond_attrs atom_attrs =
+      if ∀ b ∈ bond_attrs.keys, b.1 ∈ atom_attrs.keys ∧ b.2 ∈ atom_attrs.keys then .ok () else parserError := by
+  unfold Tucan.molfile_v3000_reader._validate_bond_indices
+  generalize bond_attrs.keys = ks
+  have g0 : ∀ b : Int × Int, getItem b (0 : Int) = .ok b.1 := fun b => rfl
+  have g1 : ∀ b : Int × Int, getItem b (1 : Int) = .ok b.2 := fun b => rfl
+  simp only [g0, g1, ok_bind, _validate_atom_index_eq]
+  induction ks with
+  | nil => simp
+  | cons b ks ih =>
+    simp only [List.forIn_cons]
+    by_cases h1 : b.1 ∈ atom_attrs.keys
+    · by_cases h2 : b.2 ∈ atom_attrs.keys
+      · simp only [h1, h2, if_true, ok_bind, pure_eq_ok] at ih ⊢
+        rw [ih]
+        simp only [List.forall_mem_cons, h1, h2, true_and, and_self]
+      · simp [h1, h2, parserError]
+    · simp [h1, parserError]
+
+
+/-! ### bonds to a star atom: `ENDPTS=(n a1 … an)` -/
+
+theorem searchAux_none (s : Str) (h : '(' ∉ s) : ∀ fuel, searchEndptsAux fuel s = none := by
+  induction s with
+  | nil => intro fuel; cases fuel <;> rfl
+  | cons c cs ih =>
+    intro fuel
+    cases fuel with
+    | zero => rfl
+    | succ fuel =>
+      simp only [List.mem_cons, not_or] at h
+      have hp : (py!"ENDPTS=(").isPrefixOf (c :: cs) = false := by
+        by_contra hp
+        simp only [Bool.not_eq_false, List.isPrefixOf_iff_prefix] at hp
+        obtain ⟨t, ht⟩ := hp
+        have : '(' ∈ c :: cs := by rw [← ht]; simp
+        simp only [List.mem_cons] at this
+        rcases this with h1 | h1
+        · exact h.1 h1
+        · exact h.2 h1
+      simp only [searchEndptsAux, hp, Bool.false_eq_true, if_false]
+      exact ih h.2 fuel
+
+theorem noHit (P rest : Str) (hP : '(' ∉ P) (hne : P ≠ []) :
+    (py!"ENDPTS=(").isPrefixOf (P ++ (py!"ENDPTS=(" ++ rest)) = false := by
+  rcases P with _ | ⟨c0, _ | ⟨c1, _ | ⟨c2, _ | ⟨c3, _ | ⟨c4, _ | ⟨c5, _ | ⟨c6, _ | ⟨c7, P⟩⟩⟩⟩⟩⟩⟩⟩
+  · exact absurd rfl hne
+  all_goals simp only [List.mem_cons, not_or, List.not_mem_nil, not_false_eq_true, and_true] at hP
+  all_goals simp [List.isPrefixOf]
+  intros; exact hP.2.2.2.2.2.2.2.1
+
+theorem lastParenIdx_hit (B Q : Str) (hB : B ≠ []) (hQ : ')' ∉ Q) :
+    lastParenIdx (B ++ ')' :: Q) = some B.length := by
+  unfold lastParenIdx
+  have hlen : (B ++ ')' :: Q).length = (B.length + 1) + Q.length := by simp; omega
+  rw [hlen, List.range_add, List.filter_append, List.range_succ, List.filter_append]
+  have h2 : List.filter (fun i => decide ((B ++ ')' :: Q)[i]? = some ')' ∧ i ≥ 1))
+      (List.map (fun x => B.length + 1 + x) (List.range Q.length)) = [] := by
+    rw [List.filter_eq_nil_iff]
+    intro i hi
+    simp only [List.mem_map, List.mem_range] at hi
+    obtain ⟨j, hj, rfl⟩ := hi
+    have : (B ++ ')' :: Q)[B.length + 1 + j]? = Q[j]? := by
+      rw [List.getElem?_append_right (by omega)]
+      have : B.length + 1 + j - B.length = j + 1 := by omega
+      rw [this]; rfl
+    simp only [this, decide_eq_true_eq, not_and]
+    intro hq
+    exact absurd (List.mem_of_getElem? hq) hQ
+  have h1 : List.filter (fun i => decide ((B ++ ')' :: Q)[i]? = some ')' ∧ i ≥ 1)) [B.length] = [B.length] := by
+    have hpos : B.length ≥ 1 := by
+      cases B with
+      | nil => exact absurd rfl hB
+      | cons _ _ => simp
+    simp [hpos]
+  rw [h1, h2]
+  simp
+
+theorem takeWhile_all {α} (p : α → Bool) (l : List α) (h : ∀ a ∈ l, p a = true) : l.takeWhile p = l := by
+  induction l with
+  | nil => rfl
+  | cons a l ih => simp [List.takeWhile, h a (by simp), ih (fun b hb => h b (by simp [hb]))]
+
+theorem searchAux_hit (B Q : Str) (hB : B ≠ []) (hQ : ')' ∉ Q) (hnlB : '\n' ∉ B) (hnlQ : '\n' ∉ Q) :
+    ∀ (P : Str), '(' ∉ P → ∀ fuel, P.length + 1 ≤ fuel →
+      searchEndptsAux fuel (P ++ (py!"ENDPTS=(" ++ (B ++ ')' :: Q))) = some (py!"ENDPTS=(" ++ (B ++ [')'])) := by
+  intro P
+  induction P with
+  | nil =>
+    intro _ fuel hf
+    cases fuel with
+    | zero => simp at hf
+    | succ fuel =>
+      have hline : List.takeWhile (fun x => !decide (x = '\n')) (B ++ ')' :: Q) = B ++ ')' :: Q := by
+        apply takeWhile_all
+        intro a ha
+        simp only [List.mem_append, List.mem_cons] at ha
+        rcases ha with ha | rfl | ha
+        · simp; rintro rfl; exact hnlB ha
+        · decide
+        · simp; rintro rfl; exact hnlQ ha
+      simp [searchEndptsAux, List.isPrefixOf, hline, lastParenIdx_hit B Q hB hQ]
+      have e : 'N' :: 'D' :: 'P' :: 'T' :: 'S' :: '=' :: '(' :: (B ++ ')' :: Q) = (py!"NDPTS=(" ++ B ++ [')']) ++ Q := by simp
+      rw [e, List.take_left' (by simp; omega)]; simp
+  | cons c P ih =>
+    intro hP fuel hf
+    cases fuel with
+    | zero => simp at hf
+    | succ fuel =>
+      have hno := noHit (c :: P) (B ++ ')' :: Q) hP (by simp)
+      simp only [List.mem_cons, not_or] at hP
+      simp only [List.cons_append] at hno
+      simp only [List.cons_append, searchEndptsAux, hno, Bool.false_eq_true, if_false]
+      exact ih hP.2 fuel (by simpa using hf)
+
+
+theorem searchEndpts_none (s : Str) (h : '(' ∉ s) : searchEndpts s = none := searchAux_none s h _
+
+/-- the regular expression finds the `ENDPTS=(…)` group when no `(` precedes it and no `)` follows it -/
+theorem searchEndpts_hit (P B Q : Str) (hP : '(' ∉ P) (hB : B ≠ []) (hQ : ')' ∉ Q) (hnlB : '\n' ∉ B) (hnlQ : '\n' ∉ Q) :
+    searchEndpts (P ++ (py!"ENDPTS=(" ++ (B ++ ')' :: Q))) = some (py!"ENDPTS=(" ++ (B ++ [')'])) :=
+  searchAux_hit B Q hB hQ hnlB hnlQ P hP _ (by simp; omega)
+
+/-- `" ".join(l)` -/
+def joinSp : List Str → Str
+  | [] => []
+  | [t] => t
+  | t :: u :: r => t ++ ' ' :: joinSp (u :: r)
+
+theorem join_eq_joinSp : ∀ l : List Str, join py!" " l = joinSp l
+  | [] => rfl
+  | [t] => by simp [join, List.intercalate, List.intersperse, joinSp]
+  | t :: u :: r => by
+    have := join_eq_joinSp (u :: r)
+    simp only [join, List.intercalate, List.intersperse, joinSp, List.flatten_cons] at this ⊢
+    rw [← this]; simp
+
+/-- a token as produced by blank-splitting a line: non-empty, no whitespace -/
+def Clean (t : Str) : Prop := t ≠ [] ∧ ∀ c ∈ t, isPySpace c = false
+
+theorem splitWsAux_clean (t : Str) (h : ∀ c ∈ t, isPySpace c = false) : ∀ (rest cur : Str),
+    splitWsAux (t ++ rest) cur = splitWsAux rest (t.reverse ++ cur) := by
+  induction t with
+  | nil => intro rest cur; rfl
+  | cons c t ih =>
+    intro rest cur
+    simp only [List.cons_append, splitWsAux, h c (by simp), Bool.false_eq_true, if_false,
+      ih (fun d hd => h d (by simp [hd])), List.reverse_cons, List.append_assoc, List.singleton_append]
+
+theorem splitWs_joinSp : ∀ (l : List Str), (∀ t ∈ l, Clean t) → splitWs (joinSp l) = l
+  | [], _ => rfl
+  | [t], h => by
+    have ht := h t (by simp)
+    have := splitWsAux_clean t ht.2 [] []
+    simp only [List.append_nil] at this
+    simp [splitWs, joinSp, this, splitWsAux, ht.1]
+  | t :: u :: r, h => by
+    have ht := h t (by simp)
+    have ih := splitWs_joinSp (u :: r) (fun x hx => h x (by simp [hx]))
+    have := splitWsAux_clean t ht.2 (' ' :: joinSp (u :: r)) []
+    simp only [splitWs] at ih
+    simp only [splitWs, joinSp, this, splitWsAux, List.append_nil]
+    simp [isPySpace, ht.1, ih]
+
+theorem X (env : DepEnv) (line : List Str) (start : Int) :
+    Tucan.molfile_v3000_reader._parse_bond_line_with_star_atom env line start = .error .key := by
+  unfold Tucan.molfile_v3000_reader._parse_bond_line_with_star_atom
+  simp only [pyIter_list]
   trace_state
   sorry
 
